@@ -135,12 +135,37 @@ class Classifier:
                 for t, a in zip(target.elts, it.args):
                     if isinstance(t, ast.Name) and t.id == name:
                         return self._elem(self.cls(a, node))
+            if isinstance(it, ast.Call) and isinstance(it.func, ast.Attribute) and it.func.attr == "items" and not it.args and len(target.elts) == 2:
+                if isinstance(target.elts[0], ast.Name) and target.elts[0].id == name:
+                    return "key"        # an object's member name: always a string, on which the normaliser is the identity
+                return self._elem(self.cls(it.func.value, node))
             if isinstance(it, ast.Call) and norm(it.func) == "enumerate" and len(target.elts) == 2:
                 if isinstance(target.elts[0], ast.Name) and target.elts[0].id == name:
                     return "other"
                 return self._elem(self.cls(it.args[0], node))
             return self._elem(self.cls(it, node))
         return "other"
+
+    def cls_at(self, e, parents):
+        """cls(e) for an expression that may sit inside comprehensions: their targets are bound first (outermost first)."""
+        comps = []
+        cur = parents.get(id(e))
+        while cur is not None:
+            if isinstance(cur, (ast.GeneratorExp, ast.ListComp, ast.SetComp, ast.DictComp)):
+                comps.append(cur)
+            cur = parents.get(id(cur))
+        if not comps:
+            return self.cls(e)
+        node = self.node_of.get(id(comps[-1]), self.cfg.entry)
+        saved = dict(self.local)
+        try:
+            for comp in reversed(comps):
+                for g in comp.generators:
+                    for nm in [x.id for x in ast.walk(g.target) if isinstance(x, ast.Name)]:
+                        self.local[nm] = self.target_cls(g.target, g.iter, nm, node)
+            return self.cls(e, node)
+        finally:
+            self.local = saved
 
     def cls(self, e, node=None):
         if node is None:
@@ -202,10 +227,15 @@ def rule_one_relation(ctx, roots, helpers, equal, N, rid="R8.1"):
         dps = [p for p, ro in calls.roles(f).items() if ro in ("instance", "value")] if f in roots else list(f.params)
         C = Classifier(prog, f, N, equal, dps)
         n_here = 0
+        parents = {}
+        for st in f.body:
+            for a in ast.walk(st):
+                for ch in ast.iter_child_nodes(a):
+                    parents[id(ch)] = a
         for n in walk_body(f):
             if isinstance(n, ast.Compare) and any(isinstance(o, (ast.Eq, ast.NotEq, ast.In, ast.NotIn)) for o in n.ops):
                 ops = [n.left] + list(n.comparators)
-                cs = [C.cls(x) for x in ops]
+                cs = [C.cls_at(x, parents) for x in ops]
                 where = site(f, n)
                 key = "%s|%s" % (f.qual, norm(n)[:70])
                 n_here += 1
@@ -216,6 +246,9 @@ def rule_one_relation(ctx, roots, helpers, equal, N, rid="R8.1"):
                                "`%s` special-cases a data value against a literal: the relation is no longer the single normalised one (and is shallow)" % norm(n))
                     else:
                         r.ok(where, "%s: literal comparison on non-data" % norm(n))
+                    continue
+                if "key" in cs:
+                    r.ok(where, "%s: a member name (string) looked up in a container" % norm(n))
                     continue
                 if all(c == "other" for c in cs):
                     r.ok(where, "%s: not on data (%s)" % (norm(n), cs))
@@ -356,6 +389,54 @@ def rule_normaliser(ctx, N, rid2="R8.2", rid3="R8.3"):
     return r2, r3
 
 
+def rule_memberwise(ctx, roots, helpers, N, rid="R8.4"):
+    """Where the relation is computed member by member (rather than by == on normalised containers) it must still be JSON
+    equality: a member that is *absent* on one side is not a member whose value is null, and the shorter of two arrays
+    is not equal to the longer one's prefix."""
+    prog = ctx.prog
+    calls = calls_of(prog)
+    r = ctx.rule(rid, "member-wise comparison never substitutes a JSON value for an absent member and never truncates (get-with-default, zip)", floor=3)
+    funcs = list(roots) + [h for h in helpers]
+    for f in sorted(funcs, key=lambda x: x.qual):
+        dps = [p for p, ro in calls.roles(f).items() if ro in ("instance", "value")] if f in roots else list(f.params)
+        C = Classifier(prog, f, N, None, dps)
+        compares = [n for n in walk_body(f) if isinstance(n, ast.Compare)]
+        keyset_eq = any(isinstance(c.ops[0], (ast.Eq, ast.NotEq)) and all(
+            isinstance(x, ast.Call) and (norm(x.func) in ("set", "sorted", "frozenset", "list") or (isinstance(x.func, ast.Attribute) and x.func.attr == "keys"))
+            for x in [c.left, c.comparators[0]]) for c in compares if len(c.ops) == 1)
+        n_here = 0
+        for n in walk_body(f):
+            if not isinstance(n, ast.Call):
+                continue
+            if isinstance(n.func, ast.Attribute) and n.func.attr == "get" and n.args and C.cls(n.func.value) in ("raw", "rawseq"):
+                n_here += 1
+                dflt = n.args[1] if len(n.args) > 1 else next((k.value for k in n.keywords if k.arg == "default"), None)
+                guarded = any(len(c.ops) == 1 and isinstance(c.ops[0], (ast.In, ast.NotIn)) and norm(c.left) == norm(n.args[0])
+                              and norm(c.comparators[0]) == norm(n.func.value) for c in compares)
+                if dflt is not None and not isinstance(dflt, ast.Constant):
+                    r.ok(site(f, n), "%s: the default is not a JSON literal" % norm(n)[:50])
+                elif guarded or keyset_eq:
+                    r.ok(site(f, n), "%s: presence of the key is tested" % norm(n)[:50])
+                else:
+                    r.fail("%s|absent-member-as-json-value|%s" % (f.qual, norm(n)[:50]), site(f, n),
+                           "`%s` yields %s for an absent member and nothing tests the key's presence: {\"a\": null} and {\"b\": null} "
+                           "(same size, different keys) compare equal" % (norm(n)[:60], norm(dflt) if dflt is not None else "None"))
+            elif isinstance(n.func, ast.Name) and n.func.id == "zip" and len(n.args) >= 2 and all(isinstance(a, ast.Name) and a.id in dps for a in n.args) \
+                    and len({a.id for a in n.args}) > 1:
+                n_here += 1
+                names = {a.id for a in n.args}
+                lens = any(len(c.ops) == 1 and isinstance(c.ops[0], (ast.Eq, ast.NotEq)) and
+                           {norm(x) for x in (c.left, c.comparators[0])} == {"len(%s)" % a for a in names} for c in compares) if len(names) == 2 else False
+                if lens:
+                    r.ok(site(f, n), "%s with the lengths compared" % norm(n)[:50])
+                else:
+                    r.fail("%s|zip-truncates|%s" % (f.qual, norm(n)[:50]), site(f, n),
+                           "`%s` pairs two data arrays without comparing their lengths: [1] equals [1, 2]" % norm(n)[:60])
+        if n_here == 0:
+            r.ok(site(f), "no member-wise lookup or pairing of two data values")
+    return r
+
+
 def run(ctx):
     prog = ctx.prog
     ctx.explanation = (
@@ -363,7 +444,7 @@ def run(ctx):
         "and uniqueItems (and their _utils helpers) as normalised / raw data / literal and requires both data operands to have "
         "gone through the one normaliser; R8.2 abstractly evaluates the normaliser's cases (True and False by identity to two "
         "distinct object() stand-ins, everything else unchanged); R8.3 the normaliser rebuilds arrays and object values "
-        "recursively, so the relation holds at every depth. Not decided: that Python == is mathematical equality on int/float "
+        "recursively, so the relation holds at every depth; R8.4 member-wise code (get with a JSON default, zip of the two operands) keeps absent members and lengths apart. Not decided: that Python == is mathematical equality on int/float "
         "and order-insensitive on dicts (language semantics).")
     ctx.assume("Python == on int/float is exact mathematical comparison; dict equality ignores order; list equality is element-wise")
     roots, helpers = eq_functions(prog)
@@ -383,3 +464,4 @@ def run(ctx):
             r0.fail("table|%s|%s" % (k, sorted(f.qual for f in fs)), "jsonschema/validators.py", "%s is bound to different functions across drafts: %s" % (k, sorted(f.qual for f in fs)))
     rule_one_relation(ctx, roots, helpers, equal, N)
     rule_normaliser(ctx, N)
+    rule_memberwise(ctx, roots, helpers, N)
